@@ -1,6 +1,6 @@
 """C10 - long-only sizing never budgets more than the cash-buffered equity (DESIGN C10: S1 formula slot, S2 guards)."""
 from .. import terms as T
-from ..lib import summarise, heap_writes, V, A, normal, raising, cond_str, no_inline, writers_of_attr
+from ..lib import at_construction, summarise, heap_writes, V, A, normal, raising, cond_str, no_inline, writers_of_attr
 from ..symex import Valuation, default_policy
 from ..terms import fmt, ZERO, num
 from .sizers import sizing_paths, EQUITY, call_is, loop_asset_weight, is_empty_weights_path, require_fresh_target, is_nan_test_of
@@ -127,7 +127,7 @@ def s1_formula(ctx):
         ctx.require(ok, 'C10.S1', 'the sizing loop runs over the normalised weights', s['loop'].site, fmt(wsrc)[:100], key='C10.S1|loop-source')
     ws = writers_of_attr(ctx.M, 'cash_buffer_percentage', owner=CN)
     ws = [w for w in ws if w.fn.cls is not None and w.fn.cls.name == CN]
-    ctx.require(all(w.fn.name == '__init__' for w in ws) and ws, 'C10.S2', 'the buffer is set only by the constructor, through its validator', ws[0].where if ws else None,
+    ctx.require(all(at_construction(ctx.M, w, 'cash_buffer_percentage') for w in ws) and ws, 'C10.S2', 'the buffer is set only by the constructor, through its validator', ws[0].where if ws else None,
                 key='C10.S2|buffer-writer')
 
 
